@@ -75,6 +75,50 @@ type MemStore struct {
 	// NoLog disables the call log (used by the free-running race pass, where
 	// several goroutines share one store read-only).
 	NoLog bool
+	// kept != nil: the store hands out the slices it keeps (one per key and one
+	// per value, each with spare capacity behind it) instead of fresh copies, as
+	// a storage backed by an in-memory table does (examples/memkv): what one
+	// statement writes into such a slice, every other reader sees.
+	kept map[string]*[2][]byte
+}
+
+// NewKept is New for a store that hands out the slices it keeps.
+func NewKept(pairs []Pair) *MemStore {
+	s := New(pairs)
+	s.kept = map[string]*[2][]byte{}
+	for _, k := range s.keys {
+		s.kept[k] = &[2][]byte{spare(k), spare(s.vals[k])}
+	}
+	return s
+}
+
+// KeptIntact reports whether every kept slice, and the spare capacity behind
+// it, still holds what the store put there ("" when intact).
+func (s *MemStore) KeptIntact() string {
+	chk := func(b []byte, want string) bool {
+		if string(b) != want {
+			return false
+		}
+		for _, c := range b[len(b):cap(b)] {
+			if c != 0 {
+				return false
+			}
+		}
+		return true
+	}
+	for _, k := range s.keys {
+		e := s.kept[k]
+		if e == nil {
+			continue
+		}
+		if !chk(e[0], k) {
+			return fmt.Sprintf("the kept slice of key %q now reads %q", k, e[0][:cap(e[0])])
+		}
+		if !chk(e[1], s.vals[k]) {
+			return fmt.Sprintf("the kept slice of the value of %q (%q) now reads %q", k, s.vals[k], e[1][:cap(e[1])])
+		}
+	}
+	return ""
 }
 
 func New(pairs []Pair) *MemStore {
@@ -170,6 +214,9 @@ func (s *MemStore) Get(key []byte) ([]byte, error) {
 		return nil, nil
 	}
 	s.log(Op{Kind: "Get", Args: []string{string(key)}, Ret: v})
+	if e := s.kept[string(key)]; e != nil {
+		return e[1], nil
+	}
 	return spare(v), nil
 }
 
@@ -181,6 +228,9 @@ func (s *MemStore) put(k, v string) {
 		s.keys[i] = k
 	}
 	s.vals[k] = v
+	if s.kept != nil {
+		s.kept[k] = &[2][]byte{spare(k), spare(v)}
+	}
 }
 
 func (s *MemStore) del(k string) {
@@ -188,6 +238,7 @@ func (s *MemStore) del(k string) {
 		i := sort.SearchStrings(s.keys, k)
 		s.keys = append(s.keys[:i:i], s.keys[i+1:]...)
 		delete(s.vals, k)
+		delete(s.kept, k)
 	}
 }
 
@@ -247,6 +298,7 @@ type cursor struct {
 	s    *MemStore
 	keys []string
 	vals []string
+	kept []*[2][]byte // the store's own slices (kept stores only)
 	idx  int
 }
 
@@ -260,6 +312,9 @@ func (s *MemStore) Cursor() (kvql.Cursor, error) {
 	c.vals = make([]string, len(c.keys))
 	for i, k := range c.keys {
 		c.vals[i] = s.vals[k]
+		if s.kept != nil {
+			c.kept = append(c.kept, s.kept[k])
+		}
 	}
 	return c, nil
 }
@@ -286,6 +341,9 @@ func (c *cursor) Next() ([]byte, []byte, error) {
 	k, v := c.keys[c.idx], c.vals[c.idx]
 	c.idx++
 	c.s.log(Op{Kind: "Next", Ret: k})
+	if c.kept != nil {
+		return c.kept[c.idx-1][0], c.kept[c.idx-1][1], nil
+	}
 	return spare(k), spare(v), nil
 }
 
@@ -333,7 +391,7 @@ func (l *Locked) Cursor() (kvql.Cursor, error) {
 		return nil, err
 	}
 	cc := c.(*cursor)
-	return &cursor{s: &MemStore{NoLog: true, FaultAt: -1}, keys: cc.keys, vals: cc.vals}, nil
+	return &cursor{s: &MemStore{NoLog: true, FaultAt: -1}, keys: cc.keys, vals: cc.vals, kept: cc.kept}, nil
 }
 
 // Canon of the wrapped store.
